@@ -18,6 +18,12 @@ def reg(pid, **kw):
 # ------------------------------------------------------------------------------------------- C19
 KMX = ('yuvxyb-math/src/matrix.rs', 'k_matrix.rs', 'verif_kani_matrix')
 KMXP = ('yuvxyb-math/src/matrix.rs', 'k_matrix_points.rs', 'verif_kani_matrix_points')
+KMA = ('yuvxyb-math/src/mul_add.rs', 'k_mul_add.rs', 'verif_kani_mul_add')
+def mul_add_harnesses():
+    D = 'every bit pattern of the three operands (complete: loop-free, full domain)'
+    return [H('fast_mul_add_f32_every_triple', domain=D, desc='real <f32 as FastMulAdd>::fast_mul_add(x,a,b) is bit for bit the IEEE x*a+b (unfused) or x.mul_add(a,b) (fused); discharges the fast_mul_add hypothesis of T: Exact / T: Rounded for f32'),
+            H('fast_mul_add_f64_every_triple', domain=D, desc='same for the f64 implementor (f32 and f64 behave alike)'),
+            H('multiply_add_every_triple', domain=D, desc='real multiply_add(a,b,c) is bit for bit a*b+c (unfused) or a.mul_add(b,c) (fused)')]
 UR_OPT = {'optional': 'the a-priori f32 rounding budget of the matrix products (standard model); the exact algebra is decided by U-matrix / U-color and the kernels by Kani'}
 def plan_c19(tier, seed):
     FX = 'FIXED integer-valued operands in generic position (det(A) = 4) on which f32/f64 arithmetic is exact; expected values computed in i32 from the textbook definitions'
@@ -27,10 +33,11 @@ def plan_c19(tier, seed):
     SP = '160 fixed operand sets (tools_golden_matrix.py: pseudo-random entries in [-2,2] with |det| >= 0.5, 20 with |det| <= 0.6, 20 with corner entries), references computed in f64 inside the harness'
     hs += [H(f'matrix_points_{t}_{c}', fixed=True, bounded=SP, domain='40 fixed matrices and vector pairs', desc=f'real {t} instantiation: mul_mat/mul_vec/mul_arr/cross/dot within 1e-5*max(1,|exact|); A*invert(A) and invert(A)*A within 1e-4 of I')
            for t in ('f32', 'f64') for c in 'abcd']
-    return {'verus': [('u_matrix', {}), ('u_round', UR_OPT)], 'kani': [{'crate_dir': 'yuvxyb-math', 'inject': [KMX, KMXP], 'harnesses': hs}]}
+    return {'verus': [('u_matrix', {}), ('u_round', UR_OPT)], 'kani': [{'crate_dir': 'yuvxyb-math', 'inject': [KMA], 'harnesses': mul_add_harnesses() if tier == 'thorough' else mul_add_harnesses()[2:]},
+                                                                      {'crate_dir': 'yuvxyb-math', 'inject': [KMX, KMXP], 'harnesses': hs}]}
 reg('C19', plan=plan_c19, level='proof', min_obligations=60,
     title='3x3 matrix/vector algebra agrees with its mathematical definition',
-    technique='Verus contracts on the real generic matrix.rs for every exact field T + generated polynomial lemmas (A*inv(A)=I); the products (mul_arr, mul_vec, mul_mat, dot) additionally for every T obeying the standard model of binary32/binary64 rounding (a-priori error bound)',
+    technique='Verus contracts on the real generic matrix.rs for every exact field T + generated polynomial lemmas (A*inv(A)=I); the products (mul_arr, mul_vec, mul_mat, dot) additionally for every T obeying the standard model of binary32/binary64 rounding (a-priori error bound); Kani complete harnesses on the real mul_add.rs (fast_mul_add for f32/f64, multiply_add: bit for bit x*a+b, every operand bit pattern)',
     text='Unbounded proof: every function of yuvxyb-math/src/matrix.rs (verbatim, generic) carries a postcondition equating it with the '
          'mathematical product/transpose/cross/dot/inverse over the reals, for EVERY T whose operators are exact field operations '
          '(one proof covers the f32 and f64 instantiations); lemma_inverse proves A*inv(A)=inv(A)*A=I for every matrix with det != 0. Rounding: for every T obeying the standard model (relative error 2^-24 per operation; f64 is tighter), '
@@ -38,7 +45,7 @@ reg('C19', plan=plan_c19, level='proof', min_obligations=60,
          'RowVector::cross is within 2.1*2^-24*(|a|+|b|) of a-b for its two exact products (1.1e-6 for entries in [-2,2], lemma_c19_cross); component_mul and scalar_div are single roundings (relative 2^-24 <= 1e-5*max(1,|exact|), lemma_c19_single; unary minus exact, division one rounding). '
          'Not decided in general: rounding of invert (cancellation; the 1e-4 bound for |det| >= 0.5) - checked, BOUNDED, on 160 fixed matrices (f32 and f64) by Kani together with the product tolerances.',
     note=EXACT + '; the 1e-5/1e-4 tolerances of the statement are assumed to absorb f32/f64 rounding (conditioning argument, not machine-checked). ' + TOOLS,
-    assumptions=[EXACT, 'T: Exact axioms (operators are the real field operations); Fx/Fx64 implement them by definition (ghost reals), no axiom admitted',
+    assumptions=[EXACT, 'T: Exact axioms (operators are the real field operations); Fx/Fx64 implement them by definition (ghost reals), no axiom admitted; that the two real implementors f32/f64 compute fast_mul_add as the IEEE x*a+b (fused or unfused) is proved bit-precisely by Kani k_mul_add.rs (multiply_add in the quick tier, fast_mul_add f32/f64 in the thorough tier)',
                  'rounding of f32/f64 stays inside the stated tolerances (not checked)'],
     not_decided=['rounding of invert (1e-4 for |det| >= 0.5) beyond the 160 sample matrices'],
     design_ref='DESIGN.md §5 C19')
